@@ -27,6 +27,12 @@ def leafE : X.Expr → Bool
 theorem leaf_pure (e : X.Expr) (h : leafE e = true) : pureE e = true := by
   cases e <;> simp [leafE, pureE] at h ⊢
 
+/-- The system-call id `ConstProp` finds for a called name (`-1`: none, a user call). -/
+def sysOf (ρ : String → Option Word) (f : String) : Int :=
+  match ρ f with
+  | some w => w.toInt
+  | none => -1
+
 mutual
 /-- `ConstProp` on the statements of stage (3). -/
 def annotS (ρ : String → Option Word) : X.Stmt → AStmt
@@ -39,7 +45,7 @@ def annotS (ρ : String → Option Word) : X.Stmt → AStmt
   | .assign n e => .assign n (annotate ρ e)
   | .assignSub n i e => .assignSub n (annotate ρ i) (annotate ρ e)
   | .syscall id args => .call (sysIdOfNat id) "" (args.map (annotate ρ))
-  | .call f args => .call (-1) f (args.map (annotate ρ))
+  | .call f args => .call (sysOf ρ f) f (args.map (annotate ρ))
 def annotSL (ρ : String → Option Word) : List X.Stmt → List AStmt
   | [] => []
   | s :: ss => annotS ρ s :: annotSL ρ ss
